@@ -73,6 +73,10 @@ def _run(V, work, tier):
         counts[s["class"]] += 1
         for key, fn in (("p", "parse-rfc3339"), ("pn", "parse-rfc3339-nano")):
             p = r[key]
+            # (the specification's Class is a function of the text: an answer that depends on what was parsed before is
+            # not any function of it)
+            if p["ok"] != p["ok2"] or p.get("same2") not in (None, True):
+                V.add(None, "time:%s gives two different answers for %s when asked twice in a row (%s, then %s)" % (fn, s["text"], "accepted" if p["ok"] else "rejected", "accepted" if p["ok2"] else ("rejected" if p["ok"] != p["ok2"] else "another instant")), {"stamp": s["text"], "result": p})
             if s["class"] == "accept" and not p["ok"]:
                 V.add(None, "time:%s rejects the well-formed timestamp %s: %s" % (fn, s["text"], p.get("msg", "")[-80:]), {"stamp": s["text"], "result": p})
             elif s["class"] == "reject" and p["ok"]:
@@ -87,6 +91,15 @@ def _run(V, work, tier):
                 elif s["class"] == "accept" and key == "pn":
                     reformatted.append((i, "fmtn", p.get("fmtn")))
                     reformatted.append((i, "fmt", p.get("fmt")))
+    # a second pass over a sample, in another order, through another runtime of another process: every answer as before
+    idx = rnd.sample(range(len(stamps)), min(len(stamps), 60000 if thorough else 12000))
+    again = driver_sharded(binary, "timex", [{"id": i, "stamp": stamps[i]["text"]} for i in idx])
+    for i in idx:
+        for key, fn in (("p", "parse-rfc3339"), ("pn", "parse-rfc3339-nano")):
+            a, b = real[i][key], again[i][key]
+            if a["ok"] != b["ok"] or a.get("fmtn") != b.get("fmtn"):
+                V.add(None, "time:%s answers %s differently in a second pass (another order, another process)" % (fn, stamps[i]["text"]), {"stamp": stamps[i]["text"], "first": a, "second": b})
+    V.coverage["timestamps_asked_again_in_another_order"] = len(idx)
     V.coverage["timestamps"] = dict(counts, total=len(stamps))
     if counts["accept"] < 300 or counts["reject"] < 5000:
         raise MachineryError("timestamp classes are unbalanced: %r" % counts)
